@@ -71,7 +71,7 @@ where
         )?;
     }
 
-    writeln!(writer, "    let url = \"{action}\";")?;
+    writeln!(writer, "    let url = {:?};", action.as_str())?;
     if operation.output.is_some() {
         writeln!(writer, "    helpers::send_soap_request(url, credentials, req).await")?;
     } else {
@@ -103,7 +103,7 @@ where
     }
     let namespaces = xmlns
         .iter()
-        .map(|(k, v)| format!("\"{k}\" = \"{v}\""))
+        .map(|(k, v)| format!("{k:?} = {v:?}"))
         .collect::<Vec<String>>()
         .join(", ");
 
@@ -126,10 +126,10 @@ where
                 let abbreviation = namespace.abbreviation.as_str();
                 writeln!(
                     writer,
-                    "#[yaserde(prefix = \"{abbreviation}\", rename = \"{xml_name}\")]"
+                    "#[yaserde(prefix = {abbreviation:?}, rename = {xml_name:?})]"
                 )?;
             } else {
-                writeln!(writer, "    #[yaserde(rename = \"{xml_name}\")]")?;
+                writeln!(writer, "    #[yaserde(rename = {xml_name:?})]")?;
             }
 
             // todo: we should check if the "mustUnderstand" == 1 to make the field required
@@ -163,7 +163,7 @@ where
 
     if let Some(namespace) = soap_operation.body.in_namespace.as_ref() {
         let abbreviation = namespace.abbreviation.as_str();
-        writeln!(writer, "#[yaserde(prefix = \"{abbreviation}\", {yaserde_ns_header})]")?;
+        writeln!(writer, "#[yaserde(prefix = {abbreviation:?}, {yaserde_ns_header})]")?;
     } else {
         writeln!(writer, "#[yaserde(rename = \"Envelope\", {yaserde_ns_header})]")?;
     }
@@ -175,11 +175,11 @@ where
         let abbreviation = namespace.abbreviation.as_str();
         writeln!(
             writer,
-            "    #[yaserde(prefix = \"{abbreviation}\", rename = \"{xml_name}\")]"
+            "    #[yaserde(prefix = {abbreviation:?}, rename = {xml_name:?})]"
         )?;
         writeln!(writer, "    pub {body_field_name}: {mod_name}::{body},",)?;
     } else {
-        writeln!(writer, "    #[yaserde(rename = \"{xml_name}\")]")?;
+        writeln!(writer, "    #[yaserde(rename = {xml_name:?})]")?;
         writeln!(writer, "    pub {body_field_name}: {body},")?;
     }
     writeln!(writer, "}}")?;
